@@ -49,6 +49,8 @@ type Op struct {
 	Zone       string `json:"zone,omitempty"`
 	// NoTime: the host passes the zero time for the input point (it has no timestamp)
 	NoTime bool `json:"no_time,omitempty"`
+	// Private: the host starts the run with runtime.WithPrivate({"tenant": Private}) ("" = without the option)
+	Private string `json:"private,omitempty"`
 }
 
 type Workload struct {
@@ -103,6 +105,7 @@ func (Prop) Generate(seed uint64, tier string) *core.Plan {
 	w := Workload{}
 	w.FreshProcess = r.Intn(300) == 0
 	w.DirLoads = r.Intn(4) == 0
+	hostOpts := r.Intn(4) == 0 // the host uses run options (private values) and a function that reads them
 	if tier == "thorough" {
 		w.FreshProcess = r.Intn(100) == 0
 	}
@@ -128,7 +131,16 @@ func (Prop) Generate(seed uint64, tier string) *core.Plan {
 			w.Sets = append(w.Sets, cp)
 			continue
 		}
-		w.Sets = append(w.Sets, corpus.GenSet(r))
+		set := corpus.GenSet(r)
+		if hostOpts {
+			// scripts that call a host-registered function reading the run's private values
+			for _, n := range sortedNames(set) {
+				if r.Intn(2) == 0 {
+					set[n] = "pv()\n" + set[n]
+				}
+			}
+		}
+		w.Sets = append(w.Sets, set)
 	}
 	nsrc := 1 + r.Intn(4)
 	for i := 0; i < nsrc; i++ {
@@ -201,6 +213,9 @@ func (Prop) Generate(seed uint64, tier string) *core.Plan {
 				op.CancelPoll = 1 + r.Intn(12)
 			}
 			op.NoTime = r.Intn(8) == 0
+			if hostOpts && r.Intn(3) == 0 {
+				op.Private = []string{"acme", "globex"}[r.Intn(2)]
+			}
 		case c < 94:
 			op.Kind = "runv2"
 			op.Src = r.Intn(len(w.V2))
@@ -371,7 +386,12 @@ func (x *executor) run(op *Op, fresh bool) string {
 	}
 	input.InitPt(pt, tpl.Measurement, tpl.TagsCopy(), tpl.Fields(), ptTime)
 	sig := &pollSig{at: op.CancelPoll}
-	err := sc.Run(pt, sig)
+	var err *errchain.PlError
+	if op.Private != "" {
+		err = sc.Run(pt, sig, runtime.WithPrivate(map[string]any{"tenant": op.Private}))
+	} else {
+		err = sc.Run(pt, sig)
+	}
 	out := fmt.Sprintf("err=%s %s", errStr(errOrNil(err)), pointStr(pt))
 	input.PutPoint(pt)
 	if op.CancelPoll != 0 && sig.polls >= op.CancelPoll {
@@ -487,7 +507,18 @@ func fingerprint() uint64 {
 }
 
 func newExec(w *Workload, base time.Time) *executor {
-	calls, checks := plenv.Tables(nil, nil)
+	// pv(): a host-registered function that stamps the run's private value (runtime.WithPrivate) on the point
+	calls, checks := plenv.Tables(map[string]runtime.FuncCall{
+		"pv": func(ctx *runtime.Task, e *ast.CallExpr) *errchain.PlError {
+			v, ok := ctx.PValue("tenant")
+			if pt, isPt := ctx.InData().(*input.Point); isPt {
+				_ = pt.Set("pv_tenant", fmt.Sprintf("%v/%v", v, ok), ast.String)
+			}
+			return nil
+		},
+	}, map[string]runtime.FuncCheck{
+		"pv": func(ctx *runtime.Task, e *ast.CallExpr) *errchain.PlError { return nil },
+	})
 	return &executor{w: w, calls: calls, checks: checks, loaded: map[int]map[string]*runtime.Script{}, lerrs: map[int]map[string]error{},
 		probes: map[string]int{}, base: base}
 }
